@@ -71,3 +71,6 @@ func (d *DistKeyGenerator) VerifDealer() *vss.Dealer { return d.dealer }
 func VerifNewDistKeyGenerator(suite Suite, longterm kyber.Scalar, participants []kyber.Point, t int, secret kyber.Scalar) (*DistKeyGenerator, error) {
 	return initDistKeyGenerator(suite, longterm, participants, t, secret)
 }
+
+// VerifStampSender is what pdkg.Loop does to a PublicKey message before buffering it.
+func VerifStampSender(content *PublicKey, sender []byte) { stampSender(content, sender) }
